@@ -314,7 +314,8 @@ def run(sh, spec):
                     clocks = [rng.choice(CLOCKS) for _ in ops]
                     nt = run_sequence(sh, lab, cfg, ops, clocks)
                     sh.case((ci, idx, tuple(clocks)), nt)
-        sh.sample({"config": grid[spec["cfgs"][0]], "ops": [["start"], ["advance", 1], ["advance", 3], ["finish"]], "clocks": [0, 0.01, 0.2, 0]})
+                    if nt and not sh.samples:
+                        sh.sample({"config": cfg, "ops": [list(o) for o in ops], "clocks": clocks})
     else:
         for k in range(spec["n"]):
             kind = rng.choice(["ansi", "ansi", "plain", "plain", "section", "quiet"])
